@@ -106,8 +106,11 @@ def main():
         # store
         dst = os.path.join(VERIF, "seeded", a.name)
         os.makedirs(dst, exist_ok=True)
-        shutil.copy(a.diff, os.path.join(dst, "patch.diff"))
-        shutil.copy(a.demo, os.path.join(dst, "demo_" + os.path.basename(a.demo) if not os.path.basename(a.demo).startswith("demo") else os.path.basename(a.demo)))
+        def cp(src, to):
+            if os.path.abspath(src) != os.path.abspath(to):
+                shutil.copy(src, to)
+        cp(a.diff, os.path.join(dst, "patch.diff"))
+        cp(a.demo, os.path.join(dst, "demo_" + os.path.basename(a.demo) if not os.path.basename(a.demo).startswith("demo") else os.path.basename(a.demo)))
         meta["demo"] = {"place_in": a.demo_dir, "run": " ".join(demo_cmd)}
         old = {}
         mp = os.path.join(dst, "meta.json")
